@@ -145,3 +145,13 @@ claim(
     TB, "dominance of Result arms over sends, constant-argument dataflow, sibling agreement, shared C08/C05 rules",
     "DESIGN.md §2 C07",
 )
+claim(
+    "C18", "other",
+    "Coverage-or-refusal and sibling agreement of the Rust transpiler: every producible mir::Instruction variant has an explicit "
+    "non-diverging arm in the emitting pass; the `delay` primitive of the runtime template embedded in generated programs (compiled "
+    "stand-alone by the extractor) agrees with the VM ring buffer on clamp bounds, read index and write advance; the name-collision "
+    "test sanitises candidates with the sanitiser that produces the emitted name. Compilability and outputs of emitted sources are "
+    "not decided.",
+    TB, "enum producer/consumer coverage, three-way sibling template comparison of runtime primitives (VM / WASM host / Rust template), normal-form agreement",
+    "DESIGN.md §2 C18",
+)
